@@ -42,6 +42,27 @@ def plan_cases(tier, seed):
             cfg = dict(corpus_rt.kappa_list(gapless)[i // 4 % 3][1])
             cfg["sorted"] = rng.choice([["value"], ["name"], ["name", "value"], []])
         cases.append({"id": i + 1, "repr": r, "variants": vs, "cfg": cfg})
+    # threshold configurations: `iter` alone / with names on enums with holes of 1..9 variants of every repr
+    # (auto picks table_inline below and next_and_back above num_values * size_guess = 8)
+    for r in prim.REPRS:
+        for n in (2, 3, 4, 8, 9):
+            base = 0 if not prim.signed(r) else -3
+            reals = [base + 2 * j for j in range(n)]
+            vs = corpus_rt.decorate(reals, r, rng, "ident", "shuffle", "dec")
+            for feats in (["iter"], ["iter", "names"]):
+                cases.append({"id": len(cases) + 1, "repr": r, "variants": vs, "cfg": {"feats": [(f, {}) for f in feats], "split": "one"}})
+    # twins: the same declaration (same enum-level attributes, identifiers, discriminants) with other renames /
+    # another visibility: a per-process cache keyed by an incomplete description of the input would confuse them
+    twins = []
+    for c in cases[:60:2]:
+        t = {"id": 0, "repr": c["repr"], "cfg": c["cfg"], "variants": [dict(v) for v in c["variants"]], "twin_of": c["id"]}
+        for j, v in enumerate(t["variants"]):
+            v["rename"] = None if v.get("rename") else f"tw{j}"
+        t["enum_vis"] = "pub(crate)"
+        twins.append(t)
+    for t in twins:
+        t["id"] = len(cases) + 1
+        cases.append(t)
     # large enums
     for n_big in ([300, 1500] if tier == "quick" else [300, 1500, 5000, 20000]):
         reals = sorted(random.Random(n_big).sample(range(-3 * n_big, 3 * n_big), n_big))
@@ -112,23 +133,54 @@ def compute(tier, seed):
     if not so:
         raise ToolError("cannot find the proc-macro artifact of enum-tools")
     env = dict(os.environ, RUSTC_BOOTSTRAP="1")
+    # per-process state other than the hash seeds: the order in which the declarations are expanded (each run gets its own
+    # permutation of the case modules) and the environment (odd runs see the variables cargo sets for build scripts, another
+    # working directory name, TMPDIR, ...)
+    scrambled = {"CARGO_CFG_TARGET_POINTER_WIDTH": "64", "CARGO_CFG_TARGET_ARCH": "x86_64", "CARGO_CFG_TARGET_OS": "linux",
+                 "CARGO_CFG_TARGET_ENDIAN": "little", "CARGO_CFG_UNIX": "", "PROFILE": "release", "OPT_LEVEL": "3", "DEBUG": "false",
+                 "HOST": "x86_64-unknown-linux-gnu", "TARGET": "x86_64-unknown-linux-gnu", "NUM_JOBS": "7", "OUT_DIR": "/nonexistent/out",
+                 "CARGO_PKG_NAME": "other", "CARGO_PKG_VERSION": "9.9.9", "CARGO_CRATE_NAME": "other", "CARGO_MANIFEST_DIR": "/nonexistent",
+                 "RUSTFLAGS": "-Copt-level=3", "CARGO_ENCODED_RUSTFLAGS": "-Copt-level=3", "TMPDIR": "/tmp", "LANG": "tr_TR.UTF-8",
+                 "LC_ALL": "C", "TZ": "Pacific/Kiritimati", "SOURCE_DATE_EPOCH": "1", "RUST_LOG": "trace", "CARGO_FEATURE_STD": "1"}
+    blocks = {}
+    for cid, a, b in spans:
+        blocks[cid] = lines[a:b]
 
     def expand(k):
+        order = [c["id"] for c in cases]
+        random.Random(f"order-{seed}-{k}").shuffle(order)
+        if k == 0:
+            order = [c["id"] for c in cases]
+        elif k == 1:
+            order = order[::-1]
+        src_k = os.path.join("src", f"lib_{k}.rs")
+        text = ["#![allow(warnings)]"]
+        for cid in order:
+            text += blocks[cid]
+        open(os.path.join(root, src_k), "w").write("\n".join(text) + "\n")
+        e = dict(env)
+        if k % 2 == 1:
+            e.update(scrambled)
         p = subprocess.run(["rustc", "--edition=2021", "--crate-type=lib", "--crate-name", "expcorpus", "-Zunpretty=expanded",
-                            "--extern", f"enum_tools={so}", "--cap-lints", "allow", "src/lib.rs"],
-                           cwd=root, env=env, stdout=subprocess.PIPE, stderr=subprocess.PIPE, text=True)
+                            "--extern", f"enum_tools={so}", "--cap-lints", "allow", src_k],
+                           cwd=root, env=e, stdout=subprocess.PIPE, stderr=subprocess.PIPE, text=True)
         if p.returncode != 0:
             raise ToolError("rustc -Zunpretty=expanded failed: " + p.stderr[-2000:])
         parts, cur, buf = {}, None, []
+
+        def digest(b):
+            while b and not b[-1].strip():      # the module that happens to be last carries the file's trailing newline
+                b = b[:-1]
+            return hashlib.sha256("\n".join(b).encode()).hexdigest()[:20]
         for line in p.stdout.split("\n"):
             m = re.match(r"pub mod c(\d+) \{", line)
             if m:
                 if cur is not None:
-                    parts[cur] = hashlib.sha256("\n".join(buf).encode()).hexdigest()[:20]
+                    parts[cur] = digest(buf)
                 cur, buf = int(m.group(1)), []
             buf.append(line)
         if cur is not None:
-            parts[cur] = hashlib.sha256("\n".join(buf).encode()).hexdigest()[:20]
+            parts[cur] = digest(buf)
         if k == 0:
             open(os.path.join(root, "expanded0.rs"), "w").write(p.stdout)
         return parts
